@@ -484,7 +484,7 @@ flops_t *trsv_ops;      /* flops distribution on n */
 #define SLUV_SNODE_BEGIN    32   /* a=jcol b=w */
 #define SLUV_SINGULAR       33   /* a=jcol b=nsupc c=nsupr ctx=Glu : zero pivot column (c==b: no candidate row) */
 #define SLUV_DFS_STEP       34   /* a=krep b=1 if the pruned (second) subscript list is traversed c=column  (yield) */
-#define SLUV_PRUNE_STEP     35   /* a=irep b=0 begin rewriting the second list, 1 before publishing, 2 published  (yield) */
+#define SLUV_PRUNE_STEP     35   /* a=irep b=0 begin rewriting the second list, 1 before publishing, 2 published, 3 inside one interchange  (yield) */
 extern void slu_mt_verif_event(int kind, long pnum, long a, long b, long c,
 			       const void *ctx);
 #define SLU_MT_VERIF_EVENT(k,p,a,b,c,x) \
